@@ -309,15 +309,264 @@ def layer_a_units(quick: bool) -> List[Tuple[str, List[Dict[str, Any]]]]:
 
 
 # ---------------------------------------------------------------------------------------------
-# Layer C placeholder (extended below)
+# Layer C: composition.  A fixed DOP library + an alphabet of parameter templates; programs are parameter
+# sequences explored breadth first (depth bound), each with the product of its templates' value options.
 # ---------------------------------------------------------------------------------------------
+def P(t: str, name: str, **kw: Any) -> Dict[str, Any]:
+    d = {"t": t, "name": name}
+    d.update({k: v for k, v in kw.items() if v is not None})
+    return d
+
+
 def library() -> List[Dict[str, Any]]:
-    return []
+    u8 = {"name": "u8", "dct": U8}
+    lin = {"cat": "LINEAR", "i2p": [{"num": [1, 2], "den": [1]}]}
+    tt = {"cat": "TEXTTABLE", "i2p": [{"lo": 0, "hi": 0, "const": "off"}, {"lo": 1, "hi": 1, "const": "on"},
+                                      {"lo": 2, "hi": 3, "const": "auto"}]}
+    lib: List[Dict[str, Any]] = [
+        u8,
+        {"name": "u16", "dct": std("A_UINT32", 16)},
+        {"name": "u16l", "dct": std("A_UINT32", 16, None, False)},
+        {"name": "u12", "dct": std("A_UINT32", 12)},
+        {"name": "u4", "dct": std("A_UINT32", 4)},
+        {"name": "u24", "dct": std("A_UINT32", 24)},
+        {"name": "i8lin", "dct": std("A_INT32", 8), "phys": "A_INT32", "cm": lin},
+        {"name": "tt", "dct": U8, "phys": "A_UNICODE2STRING", "cm": tt},
+        {"name": "bz", "dct": {"k": "MINMAX", "base": "A_BYTEFIELD", "min": 0, "max": 3, "term": "ZERO"}},
+        {"name": "beop", "dct": {"k": "MINMAX", "base": "A_BYTEFIELD", "min": 1, "max": None, "term": "END-OF-PDU"}},
+        {"name": "lead8", "dct": {"k": "LEAD", "base": "A_BYTEFIELD", "bits": 8}},
+        {"kind": "struct", "name": "S_flat", "params": [P("VALUE", "a", dop="u8"), P("VALUE", "b", dop="u16")]},
+        {"kind": "struct", "name": "S_sub", "params": [P("VALUE", "x", dop="u4", byte=0, bit=0), P("VALUE", "y", dop="u4", byte=0, bit=4),
+                                                         P("VALUE", "z", dop="u8", byte=1)]},
+        {"kind": "struct", "name": "S_nested", "params": [P("VALUE", "h", dop="u8"), P("VALUE", "inner", dop="S_flat")]},
+        {"kind": "struct", "name": "S_sized", "byte_size": 3, "params": [P("VALUE", "a", dop="u8")]},
+        {"kind": "struct", "name": "S_item", "params": [P("VALUE", "a", dop="u8"), P("VALUE", "b", dop="u8")]},
+        {"kind": "struct", "name": "S_one", "params": [P("VALUE", "a", dop="u8")]},
+        {"kind": "sfield", "name": "SF2", "of": "S_item", "n": 2, "item_size": 2},
+        {"kind": "sfield", "name": "SF2p", "of": "S_item", "n": 2, "item_size": 3},
+        {"kind": "dlfield", "name": "DL1", "of": "S_item", "offset": 1, "count": {"byte": 0, "dop": "u8"}},
+        {"kind": "dlfield", "name": "DL2", "of": "S_one", "offset": 2, "count": {"byte": 0, "dop": "u8"}},
+        {"kind": "eopfield", "name": "EOP", "of": "S_item"},
+        {"kind": "emfield", "name": "EM", "of": "S_item", "end_dop": "u8", "term": "255"},
+        {"kind": "mux", "name": "MUXd", "byte": 1, "key": {"byte": 0, "dop": "u8"},
+         "cases": [{"name": "c0", "lo": 0, "hi": 1, "struct": "S_item"}, {"name": "c1", "lo": 2, "hi": 5, "struct": "S_flat"}],
+         "default": {"name": "dflt", "struct": "S_one"}},
+        {"kind": "mux", "name": "MUXn", "byte": 1, "key": {"byte": 0, "dop": "u8"},
+         "cases": [{"name": "c0", "lo": 1, "hi": 1, "struct": "S_item"}, {"name": "c1", "lo": 2, "hi": 5, "struct": "S_flat"}]},
+        {"kind": "mux", "name": "MUXe", "byte": 1, "key": {"byte": 0, "dop": "u8"},
+         "cases": [{"name": "c0", "lo": 1, "hi": 1, "struct": "S_item"}, {"name": "c1", "lo": 2, "hi": 5}],
+         "default": {"name": "dflt", "struct": "S_one"}},
+        {"kind": "table", "name": "T", "key_dop": "u8",
+         "rows": [{"name": "r1", "key": 1, "struct": "S_item"}, {"name": "r2", "key": 2, "dop": "u16"}, {"name": "r3", "key": 3, "struct": "S_flat"}]},
+        {"kind": "dtcdop", "name": "dtc3", "dct": std("A_UINT32", 24), "dtcs": [{"name": "P0001", "code": 1}, {"name": "P1234", "code": 0x123456}]},
+        {"kind": "envdata", "name": "env_all", "all": True, "params": [P("VALUE", "e_all", dop="u8")]},
+        {"kind": "envdata", "name": "env_spec", "dtcs": [0x123456], "params": [P("VALUE", "e_spec", dop="u16")]},
+    ]
+    return lib
+
+
+def _item(a: int, b: int) -> Dict[str, int]:
+    return {"a": a, "b": b}
+
+
+def templates() -> Dict[str, Any]:
+    """name -> function(i, envname) -> dict(params, options, size (static bytes | None), last_only, needs_cursor,
+    rel: list of (param index, relative byte offset) for params that need an explicit position)"""
+    T: Dict[str, Any] = {}
+
+    def reg(name: str, size: Optional[int], options: Any, params: Any, last_only: bool = False, rel: Any = None,
+            response_only: bool = False, dyn_end: bool = False) -> None:
+        T[name] = dict(name=name, size=size, options=options, params=params, last_only=last_only, rel=rel or [],
+                       response_only=response_only, dyn_end=dyn_end)
+
+    reg("CC8", 1, lambda i: [{}], lambda i: [P("CODED-CONST", f"cc{i}", dct=U8, value=0x22)])
+    reg("CC16L", 2, lambda i: [{}], lambda i: [P("CODED-CONST", f"ccl{i}", dct=std("A_UINT32", 16, None, False), value=0x1234)])
+    reg("CCNIB", 1, lambda i: [{}], lambda i: [P("CODED-CONST", f"nl{i}", dct=std("A_UINT32", 4), value=0xA, bit=0),
+                                               P("CODED-CONST", f"nh{i}", dct=std("A_UINT32", 4), value=0x5, bit=4)], rel=[(0, 0), (1, 0)])
+    reg("PC", 1, lambda i: [{}], lambda i: [P("PHYS-CONST", f"pc{i}", dop="i8lin", const=7)])
+    reg("V8", 1, lambda i: [{f"v{i}": 0}, {f"v{i}": 1}, {f"v{i}": 255}], lambda i: [P("VALUE", f"v{i}", dop="u8")])
+    reg("V12b", 2, lambda i: [{f"w{i}": 0}, {f"w{i}": 0xABC}, {f"w{i}": 0xFFF}], lambda i: [P("VALUE", f"w{i}", dop="u12", bit=3)])
+    reg("VLIN", 1, lambda i: [{f"l{i}": 1}, {f"l{i}": -255}, {f"l{i}": 255}], lambda i: [P("VALUE", f"l{i}", dop="i8lin")])
+    reg("VDEF", 1, lambda i: [{}, {f"d{i}": 9}], lambda i: [P("VALUE", f"d{i}", dop="u8", default=7)])
+    reg("VTT", 1, lambda i: [{f"t{i}": "off"}, {f"t{i}": "auto"}], lambda i: [P("VALUE", f"t{i}", dop="tt")])
+    reg("RES8", 1, lambda i: [{}], lambda i: [P("RESERVED", f"r{i}", bits=8)])
+    reg("RES4", 1, lambda i: [{}], lambda i: [P("RESERVED", f"rh{i}", bits=4, bit=4)])
+    reg("SYS", 1, lambda i: [{f"s{i}": 30}], lambda i: [P("SYSTEM", f"s{i}", dop="u8", sysparam="SECOND")])
+    reg("LK", None, lambda i: [{f"lv{i}": b""}, {f"lv{i}": b"\x01\x02"}, {f"lv{i}": b"\x09", f"lk{i}": 8}],
+        lambda i: [P("LENGTH-KEY", f"lk{i}", dop="u8", id=f"L.LK.@PID@.{i}"), P("VALUE", f"lv{i}", dop=f"@PLEN@{i}")])
+    reg("TKS", None, lambda i: [{f"ts{i}": ("r1", _item(1, 2))}, {f"ts{i}": ("r2", 0x1234)}, {f"ts{i}": ("r3", {"a": 9, "b": 0xBEEF}), f"tk{i}": "r3"}],
+        lambda i: [P("TABLE-KEY", f"tk{i}", table="T", id=f"L.TK.@PID@.{i}"), P("TABLE-STRUCT", f"ts{i}", key=f"tk{i}", key_id=f"L.TK.@PID@.{i}")])
+    reg("TKSROW", None, lambda i: [{f"tsr{i}": ("r2", 0x1234)}],
+        lambda i: [P("TABLE-KEY", f"tkr{i}", table="T", row="r2", id=f"L.TK.@PID@.{i}"), P("TABLE-STRUCT", f"tsr{i}", key=f"tkr{i}", key_id=f"L.TK.@PID@.{i}")])
+    reg("SFLAT", 3, lambda i: [{f"sf{i}": {"a": 1, "b": 0x1234}}, {f"sf{i}": {"a": 255, "b": 0}}], lambda i: [P("VALUE", f"sf{i}", dop="S_flat")])
+    reg("SSUB", 2, lambda i: [{f"ss{i}": {"x": 1, "y": 2, "z": 3}}, {f"ss{i}": {"x": 15, "y": 0, "z": 255}}], lambda i: [P("VALUE", f"ss{i}", dop="S_sub")])
+    reg("SNEST", 4, lambda i: [{f"sn{i}": {"h": 7, "inner": {"a": 1, "b": 0x1234}}}], lambda i: [P("VALUE", f"sn{i}", dop="S_nested")])
+    reg("SSIZED", 3, lambda i: [{f"sz{i}": {"a": 9}}], lambda i: [P("VALUE", f"sz{i}", dop="S_sized")])
+    reg("SF2", 4, lambda i: [{f"fa{i}": [_item(1, 2), _item(3, 4)]}], lambda i: [P("VALUE", f"fa{i}", dop="SF2")])
+    reg("SF2p", 6, lambda i: [{f"fp{i}": [_item(1, 2), _item(3, 4)]}], lambda i: [P("VALUE", f"fp{i}", dop="SF2p")])
+    reg("DL1", None, lambda i: [{f"dl{i}": []}, {f"dl{i}": [_item(1, 2)]}, {f"dl{i}": [_item(1, 2), _item(3, 255)]}], lambda i: [P("VALUE", f"dl{i}", dop="DL1")])
+    reg("DL2", None, lambda i: [{f"dm{i}": []}, {f"dm{i}": [{"a": 5}, {"a": 6}]}], lambda i: [P("VALUE", f"dm{i}", dop="DL2")])
+    reg("EOP", None, lambda i: [{f"eo{i}": []}, {f"eo{i}": [_item(1, 2)]}, {f"eo{i}": [_item(1, 2), _item(255, 4)]}], lambda i: [P("VALUE", f"eo{i}", dop="EOP")], last_only=True)
+    reg("EMLAST", None, lambda i: [{f"em{i}": []}, {f"em{i}": [_item(1, 2), _item(3, 4)]}], lambda i: [P("VALUE", f"em{i}", dop="EM")], last_only=True)
+    reg("EMCC", None, lambda i: [{f"en{i}": []}, {f"en{i}": [_item(1, 2)]}],
+        lambda i: [P("VALUE", f"en{i}", dop="EM"), P("CODED-CONST", f"mk{i}", dct=U8, value=255)], dyn_end=True)
+    reg("MUXd", None, lambda i: [{f"mx{i}": ("c0", _item(1, 2))}, {f"mx{i}": ("c1", {"a": 3, "b": 0x1234})}, {f"mx{i}": ("dflt", {"a": 4})}],
+        lambda i: [P("VALUE", f"mx{i}", dop="MUXd")])
+    reg("MUXn", None, lambda i: [{f"my{i}": ("c0", _item(1, 2))}, {f"my{i}": ("c1", {"a": 3, "b": 0x1234})}], lambda i: [P("VALUE", f"my{i}", dop="MUXn")])
+    reg("MUXe", None, lambda i: [{f"mz{i}": ("c0", _item(1, 2))}, {f"mz{i}": ("c1", {})}, {f"mz{i}": ("dflt", {"a": 4})}, {f"mz{i}": (7, {"a": 4})}],
+        lambda i: [P("VALUE", f"mz{i}", dop="MUXe")])
+    reg("DTC", 3, lambda i: [{f"dt{i}": 0x123456}, {f"dt{i}": "P0001"}], lambda i: [P("VALUE", f"dt{i}", dop="dtc3")])
+    reg("DTCENV", None, lambda i: [{f"dtc{i}": 1, f"env{i}": {"e_all": 5}}, {f"dtc{i}": 0x123456, f"env{i}": {"e_all": 5, "e_spec": 0x1234}}],
+        lambda i: [P("VALUE", f"dtc{i}", dop="dtc3"), P("VALUE", f"env{i}", dop=f"@ENV@{i}")])
+    reg("BZ", None, lambda i: [{f"bz{i}": b""}, {f"bz{i}": b"\x41"}, {f"bz{i}": b"\x41\x42\x43"}], lambda i: [P("VALUE", f"bz{i}", dop="bz")])
+    reg("BEOP", None, lambda i: [{f"be{i}": b"\x41"}, {f"be{i}": b"\x00\x41\xff"}], lambda i: [P("VALUE", f"be{i}", dop="beop")], last_only=True)
+    reg("LEAD", None, lambda i: [{f"ld{i}": b""}, {f"ld{i}": b"\x41\x42"}], lambda i: [P("VALUE", f"ld{i}", dop="lead8")])
+    reg("MRP1", 1, lambda i: [{}], lambda i: [P("MATCHING-REQUEST-PARAM", f"mr{i}", rq_byte=0, len=1)], response_only=True)
+    reg("MRP2", 2, lambda i: [{}], lambda i: [P("MATCHING-REQUEST-PARAM", f"ms{i}", rq_byte=1, len=2)], response_only=True)
+    reg("NRCV", 1, lambda i: [{f"nv{i}": 0x11}, {f"nv{i}": 0x31}],
+        lambda i: [P("NRC-CONST", f"nrc{i}", dct=U8, values=[0x11, 0x31]), P("VALUE", f"nv{i}", dop="u8")], rel=[(0, 0), (1, 0)], response_only=True)
+    return T
+
+
+SIGMA_FULL = ["CC8", "CC16L", "CCNIB", "PC", "V8", "V12b", "VLIN", "VDEF", "VTT", "RES8", "RES4", "SYS", "LK", "TKS", "TKSROW", "SFLAT",
+              "SSUB", "SNEST", "SSIZED", "SF2", "SF2p", "DL1", "DL2", "EOP", "EMLAST", "EMCC", "MUXd", "MUXn", "MUXe", "DTC", "DTCENV", "BZ", "BEOP", "LEAD"]
+SIGMA_3 = ["CC8", "V8", "V12b", "VDEF", "RES8", "LK", "TKS", "SFLAT", "SSIZED", "SF2p", "DL1", "EOP", "MUXd", "DTCENV", "BZ"]
+SIGMA_4 = ["CC8", "V12b", "SSIZED", "DL1", "MUXd", "BZ"]
+MODES = ["auto", "at", "hole"]
 
 
 def depth_bounds(quick: bool) -> Dict[str, Any]:
-    return {}
+    return {"depth<=2": f"{len(SIGMA_FULL)} templates x modes {MODES}", "depth3": f"{len(SIGMA_3)} templates x [auto, hole]",
+            "depth4": "not in quick" if quick else f"{len(SIGMA_4)} templates, auto", "overlap_programs": "pairs with the second element placed on the first (C02 only)"}
 
 
-def layer_c_units(quick: bool) -> List[Tuple[str, List[Dict[str, Any]]]]:
-    return []
+def build_program(seq: List[Tuple[str, str]], kind: str = "REQUEST", request: Optional[bytes] = None,
+                  max_assign: int = 48) -> Optional[Dict[str, Any]]:
+    """seq: list of (template name, mode). Returns None if the sequence is ill-formed by the REFERENCE rules."""
+    T = templates()
+    ml = {"auto": "a", "at": "e", "hole": "h", "overlap": "o"}
+    pid = ("q" if kind == "REQUEST" else "p") + "_" + "_".join(f"{t}{ml[m]}" for t, m in seq)
+    pid = pid.replace("-", "")
+    params: List[Dict[str, Any]] = []
+    dops: List[Dict[str, Any]] = []
+    option_sets: List[List[Dict[str, Any]]] = []
+    cursor: Optional[int] = 0
+    prev_start: Optional[int] = 0
+    tags = ["prog", "+".join(t for t, _ in seq), "modes:" + "".join(ml[m] for _, m in seq)]
+    for idx, (tn, mode) in enumerate(seq):
+        t = T[tn]
+        last = idx == len(seq) - 1
+        if t["last_only"] and not last:
+            return None
+        if t["response_only"] and kind == "REQUEST":
+            return None
+        ps = [dict(p) for p in t["params"](idx)]
+        # positions
+        if mode != "auto" or t["rel"]:
+            if cursor is None:
+                return None
+        if mode == "auto":
+            start = cursor
+        elif mode == "at":
+            start = cursor
+        elif mode == "hole":
+            start = cursor + 1  # type: ignore[operator]
+        elif mode == "overlap":
+            if prev_start is None:
+                return None
+            start = prev_start
+        else:
+            raise ValueError(mode)
+        if mode in ("at", "hole", "overlap"):
+            if t["rel"]:
+                for (pi, off) in t["rel"]:
+                    ps[pi]["byte"] = start + off  # type: ignore[operator]
+            else:
+                ps[0]["byte"] = start
+        elif t["rel"]:
+            for (pi, off) in t["rel"]:
+                ps[pi]["byte"] = start + off  # type: ignore[operator]
+        # per-program DOPs (PLEN dependants and env-data descriptions refer to sibling parameters)
+        for p in ps:
+            if p.get("id"):
+                p["id"] = p["id"].replace("@PID@", pid)
+            if p.get("key_id"):
+                p["key_id"] = p["key_id"].replace("@PID@", pid)
+            if isinstance(p.get("dop"), str) and p["dop"].startswith("@PLEN@"):
+                dn = f"pl_{pid}_{idx}"
+                dops.append({"name": dn, "dct": {"k": "PLEN", "base": "A_BYTEFIELD", "key": f"lk{idx}", "key_id": f"L.LK.{pid}.{idx}"}})
+                p["dop"] = dn
+            if isinstance(p.get("dop"), str) and p["dop"].startswith("@ENV@"):
+                dn = f"ed_{pid}_{idx}"
+                dops.append({"kind": "envdesc", "name": dn, "param": f"dtc{idx}", "envdatas": ["env_all", "env_spec"]})
+                p["dop"] = dn
+        params.extend(ps)
+        option_sets.append(t["options"](idx))
+        prev_start = start
+        if t["size"] is not None and start is not None:
+            nxt = start + t["size"]
+            cursor = max(cursor, nxt) if mode == "overlap" and cursor is not None else nxt
+        else:
+            cursor = None
+    assign: List[Dict[str, Any]] = []
+    for combo in itertools.product(*option_sets):
+        d: Dict[str, Any] = {}
+        for c in combo:
+            d.update(c)
+        assign.append(d)
+        if len(assign) >= max_assign:
+            break
+    prog = {"pid": pid, "dops": dops, "params": params, "assign": assign, "tags": tags, "library": True, "kind": kind}
+    if request is not None:
+        prog["request"] = request
+    return prog
+
+
+def layer_c_programs(quick: bool, overlap: bool = False) -> List[Dict[str, Any]]:
+    progs: List[Dict[str, Any]] = []
+    seen = set()
+
+    def add(seq: List[Tuple[str, str]], **kw: Any) -> None:
+        p = build_program(seq, **kw)
+        if p is not None and p["pid"] not in seen:
+            seen.add(p["pid"])
+            progs.append(p)
+
+    if overlap:
+        for a in SIGMA_FULL:
+            for b in ("CC8", "V8", "V12b", "RES8", "RES4", "CCNIB", "SFLAT", "SSUB"):
+                add([(a, "auto"), (b, "overlap")])
+        return progs
+    # depth 1 and 2 over the full alphabet x modes
+    for a in SIGMA_FULL:
+        for ma in MODES:
+            add([(a, ma)])
+            for b in SIGMA_FULL:
+                for mb in MODES:
+                    if quick and ma != "auto" and mb != "auto":
+                        continue
+                    add([(a, ma), (b, mb)])
+    # depth 3
+    for a in SIGMA_3:
+        for b in SIGMA_3:
+            for c in SIGMA_3:
+                for modes in ((("auto",) * 3,) if quick else (("auto",) * 3, ("auto", "hole", "auto"), ("hole", "auto", "hole"))):
+                    add([(a, modes[0]), (b, modes[1]), (c, modes[2])], max_assign=12 if quick else 27)
+    if not quick:
+        for seq in itertools.product(SIGMA_4, repeat=4):
+            add([(t, "auto") for t in seq], max_assign=16)
+    # responses
+    rq = bytes([0x22, 0xF1, 0x90])
+    for body in (["V8"], ["SFLAT"], ["MUXd"], ["DL1"], ["BZ"], ["V8", "EOP"]):
+        for mr in ("MRP1", "MRP2"):
+            add([("CC8", "auto"), (mr, "auto")] + [(b, "auto") for b in body], kind="POS-RESPONSE", request=rq)
+            add([("CC8", "auto"), (mr, "at")] + [(b, "auto") for b in body], kind="POS-RESPONSE", request=rq)
+    add([("CC8", "auto"), ("MRP1", "auto"), ("NRCV", "auto")], kind="NEG-RESPONSE", request=rq)
+    add([("CC8", "auto"), ("MRP1", "at"), ("NRCV", "at")], kind="NEG-RESPONSE", request=rq)
+    return progs
+
+
+def layer_c_units(quick: bool, overlap: bool = False) -> List[Tuple[str, List[Dict[str, Any]]]]:
+    progs = layer_c_programs(quick, overlap)
+    chunk = 150
+    return [(f"C/{'overlap/' if overlap else ''}{c // chunk}", progs[c:c + chunk]) for c in range(0, len(progs), chunk)]
